@@ -78,6 +78,9 @@ inductive Piece
   | item (attr : Str) (x : Item)          -- {"extend": {attr: [x]}}
   | setE (attr : Str) (v : SetVal)        -- {"set": {attr: v}}
   | sync (attr : Str) (so : SyncObj)      -- {"sync": {attr: [so]}}
+  /-- {"sync": {attr: [{find, sync}]}}: the reduced entry of the create branch's recursive call -/
+  | resync (attr : Str) (nid2 : Id) (ty : Option Str) (keys : List (Str × Atom))
+      (sync : List (Str × List SyncObj))
 
 /-- what sits in `instructions` and `deferred` -/
 inductive Action
@@ -315,11 +318,15 @@ inductive PropVal
   | s (v : Val)
   | l (items : List Item)
 
+def setProp : SetVal → PropVal
+  | .scalar v => .s v
+  | .list l => .l l
+
 def propsOf (keys : List (Str × Atom)) (set : List (Str × SetVal)) (ext : List (Str × List Item)) :
     List (Str × PropVal) :=
   dictUnion
     (dictUnion (keys.map (fun ka => (ka.1, PropVal.s (.atom ka.2))))
-      (set.map (fun kv => (kv.1, match kv.2 with | .scalar v => PropVal.s v | .list l => PropVal.l l))))
+      (set.map (fun kv => (kv.1, setProp kv.2))))
     (ext.map (fun kl => (kl.1, PropVal.l kl.2)))
 
 def propScal : List (Str × PropVal) → List (Str × Val)
@@ -358,7 +365,7 @@ def stepResync (dflt : List (Str × Str)) (s : State) (par : Id) (attr : Str) (n
     (ty : Option Str) (keys : List (Str × Atom)) (sync : List (Str × List SyncObj)) :
     Except Err State :=
   match resolveFind s.ps s.g (s.g.members par attr) ty keys with
-  | .error (.unres p) => .ok (s.defer p (.piece par (.sync attr (.mk nid2 nid2 ty keys none [] [] sync))))
+  | .error (.unres p) => .ok (s.defer p (.piece par (.resync attr nid2 ty keys sync)))
   | .error (.err e) => .error e
   | .ok (some c, _) => .ok { s with agenda := sync.map (fun kl => Work.syncs c kl.1 kl.2) ++ s.agenda }
   | .ok (none, rk) =>
@@ -400,6 +407,7 @@ def startAction (dflt : List (Str × Str)) (s : State) : Action → Except Err S
   | .piece par (.item attr x) => stepItem dflt s par attr x
   | .piece par (.setE attr v) => stepSet s par attr v
   | .piece par (.sync attr so) => stepSync s par attr so
+  | .piece par (.resync attr nid2 ty keys sync) => stepResync dflt s par attr nid2 ty keys sync
 
 def stepWork (dflt : List (Str × Str)) (s : State) : Work → Except Err State
   | .items _ _ [] => .ok s
@@ -422,12 +430,14 @@ def step (dflt : List (Str × Str)) (s : State) : Except Err (Option State) :=
     | [] => .ok none
     | a :: q => (startAction dflt { s with queue := q } a).map some
 
-def run (dflt : List (Str × Str)) : Nat → State → Except Err State
-  | 0, _ => .error .outOfFuel
+/-- the `while instructions:` loop with fuel; `none` = fuel exhausted (never happens with the fuel
+`apply` supplies: `run_measure_some`) -/
+def run (dflt : List (Str × Str)) : Nat → State → Option (Except Err State)
+  | 0, _ => none
   | n + 1, s =>
     match step dflt s with
-    | .error e => .error e
-    | .ok none => .ok s
+    | .error e => some (.error e)
+    | .ok none => some (.ok s)
     | .ok (some s') => run dflt n s'
 
 /-- `if deferred: raise UnfulfilledPromisesError(frozenset(deferred))`, else `return promises` -/
@@ -489,7 +499,7 @@ def setPidN (f : Str → Nat) : List (Str × SetVal) → Nat
 
 mutual
 def SyncObj.mass : SyncObj → Nat
-  | .mk _ _ _ _ _ set ext sync => 8 + setMass set + kidsMass ext + syncMass sync
+  | .mk _ _ _ _ _ set ext sync => 5 + setMass set + kidsMass ext + syncMass sync
 def syncMass : List (Str × List SyncObj) → Nat
   | [] => 0
   | (_, l) :: t => 1 + sosMass l + syncMass t
@@ -523,11 +533,13 @@ def Piece.mass : Piece → Nat
   | .item _ x => x.mass
   | .setE _ v => v.mass
   | .sync _ so => so.mass
+  | .resync _ _ _ _ sy => 1 + syncMass sy
 
 def Piece.pidN (f : Str → Nat) : Piece → Nat
   | .item _ x => x.pidN f
   | .setE _ v => v.pidN f
   | .sync _ so => so.pidN f
+  | .resync _ _ _ _ sy => syncPidN f sy
 
 def Action.mass : Action → Nat
   | .whole i => i.mass
@@ -541,7 +553,7 @@ def Work.mass : Work → Nat
   | .items _ _ l => 1 + itemsMass l
   | .sets _ l => 1 + setMass l
   | .syncs _ _ l => 1 + sosMass l
-  | .resync _ _ _ _ _ sync => 8 + syncMass sync
+  | .resync _ _ _ _ _ sync => 1 + syncMass sync
   | .fulfil _ _ => 1
   | .dels _ _ l => 1 + l.length
 
@@ -571,6 +583,8 @@ def State.measure (s : State) : Nat := s.D * (s.T + 1) + s.Q
 /-- `decl.apply`: run the loop (fuel = the measure of the initial state, proved sufficient), then
 the terminal check -/
 def apply (dflt : List (Str × Str)) (g : Graph) (doc : List Instr) : Except Err (Graph × Promises) :=
-  (run dflt ((init g doc).measure + 1) (init g doc)).bind finish
+  match run dflt ((init g doc).measure + 1) (init g doc) with
+  | none => .error .outOfFuel
+  | some r => r.bind finish
 
 end Capella.Decl
